@@ -59,6 +59,7 @@ class Ctx:
         self.extra: dict = {}
         self.states = 0
         self.declined: list[str] = []
+        self.shortfalls: list[str] = []
 
     # ---- rule bookkeeping
     def rule(self, rid, text, engine=""):
@@ -86,7 +87,10 @@ class Ctx:
         if rule in self.rules:
             self.rules[rule]["sites"] += n
         if n < minimum:
-            raise AnalysisError(f"{rule}: matched {n} {what}, expected at least {minimum} (anchor moved or idiom not recognised)")
+            # deferred: a violation found elsewhere wins; otherwise the run ends as ANALYSIS-ERROR (never a silent pass)
+            self.shortfalls.append(f"{rule}: matched {n} {what}, expected at least {minimum} (anchor moved or idiom not recognised)")
+            if n == 0:
+                raise AnalysisError(self.shortfalls[-1])
 
     # ---- finish
     def finish(self):
@@ -123,6 +127,9 @@ class Ctx:
                 for step in list(o.witness)[-12:]:
                     print(f"      | {step}")
             print(f"VIOLATION property={self.prop} replay={path}")
+        if not viol and self.shortfalls:
+            self.write_evidence(0, matched, error="; ".join(self.shortfalls))
+            raise AnalysisError("; ".join(self.shortfalls))
         self.write_evidence(len(viol), matched)
         return 1 if viol else 0
 
@@ -209,10 +216,18 @@ def run_check(prop, tier, fn):
     except AnalysisError as e:
         print(f"ANALYSIS-ERROR property={prop} {e}")
         if ctx is not None:
+            # violations already established by the rules that did run are still reported
             try:
+                if any(not o.ok for o in ctx.obs):
+                    ctx.shortfalls = []
+                    code = ctx.finish()
+                    if code == 1:
+                        return 1
                 ctx.write_evidence(0, [], error=str(e))
-            except Exception:
+            except AnalysisError:
                 pass
+            except Exception:
+                traceback.print_exc(file=sys.stderr)
         return 2
     except Exception as e:  # a traceback must never look like a violation
         traceback.print_exc(file=sys.stderr)
